@@ -474,3 +474,9 @@ impl Property for C04 {
 fn main() {
     engine::main::<C04>()
 }
+
+/// entry point of the libFuzzer target `fuzz/fuzz_targets/c04.rs`
+#[allow(dead_code)]
+pub fn fuzz(data: &[u8]) {
+    engine::fuzz_one::<C04>(data)
+}
